@@ -774,6 +774,38 @@ pub fn gen_c10(tier: &str, rng: &mut Rng, emit: &mut Emit) {
         emit.case(40, l(vec![a(62), l((0..k).map(|_| desc_sx(rng)).collect())]));
     }
     gen_sized_templates(tier, rng, emit);
+    // descriptors whose own last bytes read 79 00 (the end tag's bytes) or 79 xx: as the only child, as the last child and in
+    // front of others -- a template must frame them like any other descriptor
+    for rep in 0..(if tier == "thorough" { 40 } else { 6 }) {
+        let lo16 = rng.val(16);
+        let lo48 = rng.val(48);
+        let min16 = rng.below(0xff00);
+        let min32 = rng.val(31);
+        let min64 = rng.val(62);
+        let ends79: Vec<Sx> = vec![
+            l(vec![a(20), a(rng.below(2)), a(rng.val(32)), a(0x0079_0000 | lo16)]),
+            l(vec![a(21), a(16), a(rng.below(3)), a(rng.below(4)), a(rng.below(2)), a(min16), a(min16 + 0x78), l(vec![])]),
+            l(vec![a(21), a(32), a(rng.below(3)), a(rng.below(4)), a(rng.below(2)), a(min32), a(min32 + (0x0079_0000 | lo16) - 1), l(vec![])]),
+            l(vec![a(21), a(64), a(rng.below(3)), a(rng.below(4)), a(rng.below(2)), a(min64), a(min64 + ((0x0079u64 << 48) | lo48) - 1), l(vec![])]),
+            l(vec![a(22), a(rng.val(16)), a(rng.val(16)), a(0x79), a(0)]),
+            l(vec![a(22), a(rng.val(16)), a(rng.val(16)), a(0x79), a(rng.val(8))]),
+            l(vec![a(23), a(rng.below(2)), a(rng.below(2)), a(rng.below(2)), a(rng.below(2)), a(0x0079_0000 | lo16)]),
+            l(vec![a(24), a(rng.below(10)), a(rng.val(8)), a(rng.val(8)), a(rng.below(5)), a((0x0079u64 << 48) | lo48)]),
+            l(vec![a(20), a(rng.below(2)), a(0x0079_0000 | lo16), a(0x7900)]),
+        ];
+        for d in &ends79 {
+            emit.case(40, d.clone());
+            emit.case(40, l(vec![a(62), l(vec![d.clone()])]));
+            for pre in 1..=(2 + rep % 3) {
+                let mut ds: Vec<Sx> = (0..pre).map(|_| desc_sx(rng)).collect();
+                ds.push(d.clone());
+                emit.case(40, l(vec![a(62), l(ds.clone())]));
+                ds.push(desc_sx(rng));
+                emit.case(40, l(vec![a(62), l(ds)]));
+            }
+            emit.case(40, l(vec![a(62), l(vec![d.clone(), d.clone()])]));
+        }
+    }
     // directed total sizes around 63/64, 255/256, 4095/4096, 65535/65536 bytes: templates of 12-byte Memory32Fixed descriptors
     for total in (2usize..8).chain(18..24).chain(338..345).chain(5458..5464) {
         let ds = (0..total).map(|_| l(vec![a(20), a(rng.below(2)), a(rng.val(32)), a(rng.val(32))])).collect();
@@ -806,6 +838,14 @@ pub fn gen_c15(tier: &str, rng: &mut Rng, emit: &mut Emit) {
         let mut g = Gen { rng, budget: 1000 };
         let es: Vec<Sx> = (0..k).map(|_| g.elem(1)).collect();
         emit.case(41, l(vec![l(vec![a(60), l(es.clone())]), l(vec![a(61), l(es)])]));
+    }
+    // beyond the one-byte element count both paths must refuse: either order, so that a path that emits where the other
+    // refuses is seen whichever it is
+    for k in [256usize, 257, 258, 300, 511, 512, 513, 65_536] {
+        let mut g = Gen { rng, budget: 1000 };
+        let es: Vec<Sx> = (0..k).map(|_| g.elem(0)).collect();
+        emit.case(41, l(vec![l(vec![a(60), l(es.clone())]), l(vec![a(61), l(es.clone())])]));
+        emit.case(41, l(vec![l(vec![a(61), l(es.clone())]), l(vec![a(60), l(es)])]));
     }
     // &str vs String, usize vs u64
     for _ in 0..500 {
